@@ -197,9 +197,13 @@ fn try_snapshot_ints(ints: &[i32], pool: &Pool) -> Result<&'static str, String> 
         Err(_) => Ok("snap:rejected"),
         Ok(()) => {
             let out = accepted_snapshot(&s, "snapshot from ints")?;
-            if snap_ints(&s2) != snap_ints(&s) {
+            // the copy that went into a used object (it held two UUID types) must be the same
+            // snapshot and pass the same checks, incl. enumeration and the follow-up recycle
+            let out2 = accepted_snapshot(&s2, "snapshot from bytes, read into a used object")?;
+            if out2 != out {
                 return Err("the same input read into an object that held another snapshot gives a different snapshot".into());
             }
+            recycle_followup(&s2)?;
             recycle_followup(&s)?;
             let mut p = pool.lock().unwrap();
             // distinct, non-empty snapshots; per-family caps keep the pool diverse
